@@ -198,9 +198,40 @@ KEY_UNIVERSE = []
 every key occurring in the inputs plus a few extra"""
 
 
+KEY_ALIASES = {'Definition': ('AssignDef', 'PhiDef'), 'UseSite': ('Var', 'IndexedAssign', 'Call'),
+               'DefSite': ('FuncDef', 'Argument', 'Assign', 'IndexedAssign', 'ForStmt', 'ContextStmt', 'ListComp')}
+"""key sorts named after a type alias (C07): the classes of their members"""
+
+
+def _key_has_class(k, kname):
+    names = KEY_ALIASES.get(kname, (kname,))
+    return any(c.__name__ in names for c in type(k).__mro__)
+
+
 def forall_keys(kname, fn):
     """for all keys k of class `kname`: fn(k).  Symbolic: a z3 quantifier over the key sort."""
-    return all(fn(k) for k in list(KEY_UNIVERSE) if any(c.__name__ == kname for c in type(k).__mro__))
+    return all(fn(k) for k in list(KEY_UNIVERSE) if _key_has_class(k, kname))
+
+
+# abstract nodes (C07, pyvc/absnodes.py): total accessors
+def key_attr(k, attr):
+    """k.attr, None when the object has no such attribute"""
+    return getattr(k, attr, None)
+
+
+def key_isa(k, cname):
+    """is k an instance of the class called cname"""
+    return any(c.__name__ == cname for c in type(k).__mro__)
+
+
+def set_map_has(m, k, u):
+    """k in m and u in m[k]"""
+    return k in m and u in m[k]
+
+
+def map_val(m, k):
+    """m[k], None when absent"""
+    return m.get(k)
 
 
 def forall_ints(fn):
